@@ -192,7 +192,7 @@ AREAS["C02"] = {
     "rule": "two real instances (embedded NATS + store each) linked by the real client.SyncClient (period 1 s) driven without a manager; histories: a tree built from the downstream "
             "side with the link up, then either more two-sided writes with the link up or an outage (sync disabled) with writes on both sides (node points on shared identities, "
             "edge points, nodes created on either side, a child deleted downstream or upstream) followed by catch-up; after every link-up phase the harness waits until both dumps of "
-            "the device tree are unchanged for 2.4 s (at least 3.5 s, at most 25 s) and a history whose last phase did not converge is re-run once from fresh instances; a history is "
+            "the device tree are unchanged for 2.4 s (at least 3.5 s, at most 45 s) and a history whose last phase did not converge is re-run once from fresh instances; a history is "
             "non-trivial when it has more than one phase; distinct by (kind, number of requests, number of nodes)",
     "trusted": STORE_TRUSTED + ["model of syncNode / sendNodesRemote / sendNodesLocal / SendNode over two store models: coq/theories/Sync/Model.v (hand-written; its catch-up from the two "
                                 "dumps taken at the end of an outage must reproduce the two dumps observed after the link came back)"],
